@@ -178,12 +178,17 @@ def latch (s : MfState) (fn : Nat) : Nat :=
   if fnDiff ≤ 0 ∨ fnDiff ≥ ((FwMframe.GSM_MAX_FN >>> 1 : Nat) : Int) ∨ s.safeFn ≥ FwMframe.GSM_MAX_FN
   then s.tasksTgt else s.tasks &&& s.tasksTgt
 
-/-- `mframe_schedule()` on the scheduler state at `l1s.current_time.fn = fn` -/
-def mframeScheduleSt (rv : RvOf) (s : MfState) (fn : Nat) : Except FwCrash (List Event × MfState) :=
-  let tasks := latch s fn
-  match scheduleTasksSt rv tasks fn (List.range 32) s.safeFn with
+/-- `mframe_schedule()` on the scheduler state at `l1s.current_time.fn = fn`, the loop
+    `for (i = 0; i < 32; i++)` running over `bits` -/
+def mframeScheduleOn (rv : RvOf) (s : MfState) (fn : Nat) (bits : List Nat) :
+    Except FwCrash (List Event × MfState) :=
+  match scheduleTasksSt rv (latch s fn) fn bits s.safeFn with
   | .error e => .error e
-  | .ok (evs, sf) => .ok (evs, ⟨tasks, s.tasksTgt, sf⟩)
+  | .ok (evs, sf) => .ok (evs, ⟨latch s fn, s.tasksTgt, sf⟩)
+
+/-- `mframe_schedule()` -/
+def mframeScheduleSt (rv : RvOf) (s : MfState) (fn : Nat) : Except FwCrash (List Event × MfState) :=
+  mframeScheduleOn rv s fn (List.range 32)
 
 /-- Hardware constant (modelled, not verified): a task written to the DSP API page during
     TDMA frame `N` is executed by the Calypso DSP in frame `N + 1` (double-buffered pages).
